@@ -37,10 +37,10 @@ Qed.
 Definition with_P (B : Blocks) (P : Mat) : Blocks :=
   {| b_P := Some P; b_c := b_c B; b_A := b_A B; b_b := b_b B; b_G := b_G B; b_h := b_h B; b_lb := b_lb B; b_ub := b_ub B |}.
 
-Lemma setup_reads_upper_only K ident junk S n p m B P Q :
-  same_upper P Q -> setup K ident junk S n p m (with_P B P) = setup K ident junk S n p m (with_P B Q).
+Lemma setup_reads_upper_only K ident spc junk S n p m B P Q :
+  same_upper P Q -> setup K ident spc junk S n p m (with_P B P) = setup K ident spc junk S n p m (with_P B Q).
 Proof. intros H. unfold setup, with_P. cbn [b_P b_c b_A b_b b_G b_h b_lb b_ub]. rewrite (upper_tri_ext P Q H). reflexivity. Qed.
 
-Lemma update_reads_upper_only K sv B P Q reuse :
-  same_upper P Q -> update K sv (with_P B P) reuse = update K sv (with_P B Q) reuse.
+Lemma update_reads_upper_only K spc sv B P Q reuse :
+  same_upper P Q -> update K spc sv (with_P B P) reuse = update K spc sv (with_P B Q) reuse.
 Proof. intros H. unfold update, with_P. cbn [b_P b_c b_A b_b b_G b_h b_lb b_ub]. rewrite (upper_tri_ext P Q H). reflexivity. Qed.
